@@ -1,5 +1,5 @@
 From Coq Require Import String Ascii List Bool Arith ZArith.
-Require Import PyStr PyInt Sexp Xml M_C09 M_C08 R_C08 Ns Table M_Parse R_Parse M_Write M_WriteText.
+Require Import PyStr PyInt Sexp Xml M_C09 M_C08 R_C08 Ns Table M_Parse M_ParseText R_Parse M_Write M_WriteText.
 Import ListNotations.
 Definition d_aval (x : sexp) : option aval :=
   match x with
@@ -43,7 +43,13 @@ Definition d_wparams (x : sexp) : option wparams :=
       omap (fun f => {| wp_uri := u; wp_inc := i; wp_pubdate := p; wp_now := n; wp_newver := v; wp_fname := f |}) (d_str f))))))
   | _ => None end.
 Definition run_write (cmd : str) (args : list sexp) : option sexp :=
-  if str_eqb cmd (lit "text_clean") then
+  if str_eqb cmd (lit "c05_roundtrip") then
+    match args with
+    | [e; lm; nw; p; b; tg] =>
+        obind (d_ext e) (fun e => obind (d_str lm) (fun lm => obind (d_str nw) (fun nw => obind (d_parsed p) (fun p =>
+        obind (d_list (d_pair d_str d_str) b) (fun b => omap (fun tg => e_res e_parsed (model_roundtrip e lm nw p b tg)) (d_list (d_pair d_str d_str) tg))))))
+    | _ => None end
+  else if str_eqb cmd (lit "text_clean") then
     match args with [p; w] => obind (d_parsed p) (fun p => omap (fun w => e_bool (text_clean (wp_pubdate w) p w)) (d_wparams w)) | _ => None end
   else if str_eqb cmd (lit "write_text") then
     match args with [p; w] => obind (d_parsed p) (fun p => omap (fun w => e_res e_str (write_text (wp_pubdate w) p w)) (d_wparams w)) | _ => None end
